@@ -648,3 +648,33 @@ def one_fault_tree(rng):
             rng.choice(sites)()
             return tree
     return tree
+
+
+def derive_shaped(rng, tree):
+    """Comments as the derive macros make them from doc comments: `/// text` gives " text" (a
+    leading blank), a blank `///` line gives "". Applied to an otherwise well-formed tree."""
+    def walk(x):
+        if isinstance(x, dict):
+            for k, v in list(x.items()):
+                if k == "comments":
+                    out = []
+                    for c in v:
+                        r = rng.random()
+                        if r < 0.6:
+                            out.append(b" " + c)
+                        elif r < 0.7:
+                            out.append(rng.choice([b"  ", b"\t", b" \t "]) + c)
+                        else:
+                            out.append(c)
+                        if rng.random() < 0.15:
+                            out.append(rng.choice([b"", b" ", b"   "]))
+                    x[k] = out
+                elif k not in ("vs", "fs", "ty", "i"):      # not inside inline types
+                    walk(v)
+                elif k == "ty":
+                    pass
+        elif isinstance(x, list):
+            for v in x:
+                walk(v)
+    walk(tree)
+    return tree
